@@ -314,6 +314,25 @@ func (ex *Exec) assert(c *term.T, id string) {
 			rec.Msg = err.Error()
 		}
 		rec.Model = m
+		if err == nil && ex.steerVal != nil {
+			if vals, verr := ex.sol.Values([]*term.T{ex.steerVal}); verr == nil {
+				rec.Msg = fmt.Sprintf("alloc-elems=%d %s", vals[0], ex.steerNote)
+			}
+			if ex.steer != nil {
+				ex.sol.Push()
+				ex.sol.Assert(ex.steer)
+				if ex.sol.Check() == smt.Sat {
+					if m2, err2 := ex.modelOfDraws(); err2 == nil {
+						if vals, verr := ex.sol.Values([]*term.T{ex.steerVal}); verr == nil {
+							rec.Model = m2
+							rec.Msg = fmt.Sprintf("alloc-elems=%d %s", vals[0], ex.steerNote)
+						}
+					}
+				}
+				ex.nQueries++
+				ex.sol.Pop()
+			}
+		}
 	default:
 		rec.Status = "unknown"
 		rec.Msg = ex.sol.LastError
